@@ -348,6 +348,10 @@ def bounded_documents(ctx, b):
                 v1, v2 = int(Fraction(d1) * US), int(Fraction(d2) * US)
                 ps.append(f'<p begin="{d1}s" dur="{d2}s">t{i}</p>')
                 exp.append((v1, v1 + v2))
+        if rep % 3 == 1:
+            # paragraphs without text are not cues, timed or not (a spacer with an id, a blank one, one with a begin only)
+            for filler in rng.sample(['<p xml:id="spacer"></p>', '<p> </p>', '<p begin="1s"></p>', '<p begin="2s" end="3s">\n  </p>'], 2):
+                ps.insert(rng.randrange(0, len(ps) + 1), filler)
         doc = tmpl % "".join(ps)
         if rep % 4 == 3:
             # a second language without any non-empty cue (before or after the first): the cues of the populated
@@ -360,7 +364,7 @@ def bounded_documents(ctx, b):
                {"expected": exp, "got": got}, sample={"format": "dfxp", "doc": doc})
     # ---- SAMI: end = next sync of the language with a different start; last = +4 s
     head = ('<SAMI><HEAD><STYLE TYPE="text/css"><!-- .ENCC {Name: English; lang: %s;} '
-            '.FRCC {Name: French; lang: %s;} --></STYLE></HEAD><BODY>%s</BODY></SAMI>')
+            '.FRCC {Name: French; lang: %s;} .SUB {color: yellow;} --></STYLE></HEAD><BODY>%s</BODY></SAMI>')
     for rep in range(n):
         # the second language may be a sub-tag extension of the first one (en / en-US): the cues of a
         # language come from the syncs of exactly that language
@@ -373,8 +377,11 @@ def bounded_documents(ctx, b):
         body = ""
         other = []
         twins = rng.random() < 0.3        # two paragraphs of the language in every sync: two cues with the same times
+        # (a paragraph may name its language itself, next to a class that is about styling only)
+        # (two-letter codes only: the reader keeps the primary subtag of an inline lang=, pinned by tests/test_sami.py)
+        ENP = f'<P class="SUB" lang="{la}">' if (len(la) == 2 and rng.random() < 0.6) else '<P class="ENCC">'
         for i, s in enumerate(starts):
-            body += f'<SYNC start="{s}"><P class="ENCC">en {i}</P>' + (f'<P class="ENCC">EN {i}</P>' if twins else "")
+            body += f'<SYNC start="{s}">{ENP}en {i}</P>' + (f'{ENP}EN {i}</P>' if twins else "")
             if not own_syncs and rng.random() < 0.5:
                 body += f'<P class="FRCC">fr {i}</P>'
             body += "</SYNC>"
